@@ -556,9 +556,11 @@ func c15ChildRace(res *hx.Result, rng *hx.Rng, tier string, outdir string) {
 				if err == nil {
 					cl.dir.ServiceReady(id)
 					cl.dir.Services()
+					cl.dir.Service("x")
 					cl.dir.UnregisterService(id)
 				} else {
 					cl.dir.Services()
+					cl.dir.Service("x")
 				}
 			}
 		}(c)
@@ -576,6 +578,67 @@ func c15ChildRace(res *hx.Result, rng *hx.Rng, tier string, outdir string) {
 		}()
 	}
 	wg.Wait()
+	// second phase: one remote registerService("y") against one local NewService("y"), started
+	// together; at most one of them may succeed
+	cl, err := dialDirectory(addr)
+	if err == nil {
+		stop = time.Now().Add(time.Duration(ms*3/4) * time.Millisecond)
+		rounds, doubles := 0, 0
+		for time.Now().Before(stop) && doubles == 0 {
+			rounds++
+			start := make(chan struct{})
+			var rid uint32
+			var rerr, lerr error
+			var svc bus.Service
+			var w2 sync.WaitGroup
+			w2.Add(2)
+			twoLocal := rounds%2 == 0 // even rounds: two local callers; odd rounds: remote against local
+			var svc2 bus.Service
+			go func() {
+				defer w2.Done()
+				<-start
+				if twoLocal {
+					svc2, rerr = srv.NewService("y", idleActor{})
+					if rerr == nil {
+						rid = svc2.ServiceID()
+					}
+					return
+				}
+				rid, rerr = cl.dir.RegisterService(services.ServiceInfo{Name: "y", MachineId: "m", ProcessId: 1, Endpoints: []string{"e"}})
+			}()
+			go func() {
+				defer w2.Done()
+				<-start
+				if !twoLocal {
+					// let the remote request travel
+					for t0 := time.Now(); time.Since(t0) < time.Duration(rounds%40)*2*time.Microsecond; {
+					}
+				}
+				svc, lerr = srv.NewService("y", idleActor{})
+			}()
+			close(start)
+			w2.Wait()
+			if rerr == nil && lerr == nil {
+				doubles++
+				who := "remote registerService(\"y\")"
+				if twoLocal {
+					who = "local NewService(\"y\")"
+				}
+				fmt.Printf("DOUBLE: round %d: %s -> id %d and local NewService(\"y\") -> id %d both succeeded\n", rounds, who, rid, svc.ServiceID())
+			}
+			if rerr == nil {
+				if twoLocal {
+					svc2.Terminate()
+				} else {
+					cl.dir.UnregisterService(rid)
+				}
+			}
+			if lerr == nil {
+				svc.Terminate()
+			}
+		}
+		fmt.Printf("double-registration rounds: %d\n", rounds)
+	}
 	os.Remove(strings.TrimPrefix(addr, "unix://"))
 	fmt.Println("race stress finished without a runtime error")
 	os.Exit(0)
